@@ -170,6 +170,9 @@ func (e *emitter) add(g Graph) {
 	if g.CbForm != "" {
 		h = fw.HashOf(h, g.CbForm)
 	}
+	if g.Shadow != "" {
+		h = fw.HashOf(h, "shadow", g.Shadow)
+	}
 	if e.seen[h] {
 		return
 	}
@@ -872,9 +875,131 @@ func famExits(e *emitter, n int, modes []exitMode, vias int) {
 	}
 }
 
+// ---- family "shadow": frames holding variables named like the globals of their module -----------
+
+// shadowForms lists the ways a function can hold a variable named like a global (Graph.Shadow).
+var shadowForms = []string{"let", "param", "block"}
+
+// famShadow: the shapes of family "exits" (entry + n-1 modules, every acyclic set of import edges that
+// reaches every module; edge function, private fn f, private global under one shared name or one
+// name per module, a pub fn g in the last module) where every function and the entry's main hold a
+// variable named like each global of their module while they call other functions - as a local, as
+// a parameter or as a local of a nested block - x function values crossing the module boundaries
+// {none, handed down: own / relay, returned by makers} x {named function, literal} (a function of a
+// module is called back from another module while frames of its own module are still active) x how
+// calls end. Plus, for n == 3: the diamond whose modules all declare `$K` (extraction parameters
+// stand next to the shadowing parameters), and modules that import a pub global (the shadowed name is
+// an imported one), with and without writes through it.
+func famShadow(e *emitter, n int, exits []exitMode, vias int) {
+	names := []string{"main", "a", "b", "c"}[:n]
+	type edge struct{ from, to int }
+	var all []edge
+	for i := 0; i < n; i++ {
+		for j := 0; j < n; j++ {
+			if i != j {
+				all = append(all, edge{i, j})
+			}
+		}
+	}
+	build := func(mask int, overlap bool) Graph {
+		g := Graph{Family: "shadow", Order: []string{"f", "g"}}
+		for i, nm := range names {
+			v := "v" + nm
+			if overlap {
+				v = "v"
+			}
+			items := []Item{{Name: "f", Kind: "fn"}, {Name: v, Kind: "let"}}
+			if i == n-1 {
+				items = append(items, Item{Name: "g", Kind: "fn", Pub: true})
+			}
+			g.Mods = append(g.Mods, newMod(nm, true, items...))
+			if !overlap || i == 0 {
+				g.Order = append(g.Order, v)
+			}
+		}
+		for i := 0; i < n; i++ {
+			var targets []string
+			for k, ed := range all {
+				if mask&(1<<k) != 0 && ed.from == i {
+					targets = append(targets, names[ed.to])
+				}
+			}
+			autoImport(&g, i, targets...)
+		}
+		return g
+	}
+	type cbf struct{ cb, form string }
+	cbs := []cbf{{"", ""}, {"own", ""}, {"relay", ""}, {"made", ""}, {"own", "lit"}, {"relay", "lit"}, {"made", "lit"}}
+	for mask := 1; mask < 1<<len(all); mask++ {
+		probe := build(mask, false)
+		if lk := LinkGraph(&probe); !lk.Accepted || len(lk.ReachSeq) != n {
+			continue
+		}
+		for _, c := range cbs {
+			for _, ex := range exits {
+				for overlap := 0; overlap < 2; overlap++ {
+					for _, sh := range shadowForms {
+						for via := 0; via < vias; via++ {
+							g := build(mask, overlap == 1)
+							g.Exit, g.Catch, g.ViaValue, g.Shadow = ex.exit, ex.catch, via == 1, sh
+							withCallback(&g, c.cb, c.form)
+							e.add(g)
+						}
+					}
+				}
+			}
+		}
+	}
+	if n != 3 {
+		return
+	}
+	for _, c := range cbs {
+		for _, ex := range exits {
+			for direct := 0; direct < 2; direct++ {
+				for _, sh := range shadowForms {
+					g := Graph{Family: "shadow", Order: []string{"f", "v"}, SingDirect: direct == 1, Exit: ex.exit, Catch: ex.catch, Shadow: sh}
+					g.Mods = []Mod{shapeMod("main", kPrivFn, kPrivLet, 0), shapeMod("a", kPubFn, kPrivLet, 0), shapeMod("b", kPrivFn, kPubLet, 0)}
+					for i := range g.Mods {
+						g.Mods[i].Items = append(g.Mods[i].Items, Item{Name: "K", Kind: "sing"})
+					}
+					autoImport(&g, 1, "b")
+					autoImport(&g, 0, "a", "b")
+					withCallback(&g, c.cb, c.form)
+					e.add(g)
+				}
+			}
+		}
+	}
+	// the shadowed name is an imported global
+	for _, c := range cbs {
+		for shape := 0; shape < 3; shape++ {
+			for mut := 0; mut < 2; mut++ {
+				for _, sh := range shadowForms {
+					g := Graph{Order: []string{"f", "v"}, Family: "shadow", Mut: mut == 1, Shadow: sh}
+					switch shape {
+					case 0: // main imports a's pub global and f
+						g.Mods = []Mod{shapeMod("main", kNone, kNone, 0), shapeMod("a", kPubFn, kPubLet, 0)}
+						autoImport(&g, 0, "a")
+					case 1: // main -> a -> b, b's global imported by a only, main has its own
+						g.Mods = []Mod{shapeMod("main", kPrivFn, kPrivLet, 0), shapeMod("a", kPubFn, kNone, 0), shapeMod("b", kNone, kPubLet, 0)}
+						autoImport(&g, 1, "b")
+						autoImport(&g, 0, "a")
+					case 2: // diamond on the global: main and a both import b's v
+						g.Mods = []Mod{shapeMod("main", kPrivFn, kNone, 0), shapeMod("a", kNone, kNone, 0), shapeMod("b", kPubFn, kPubLet, 0)}
+						autoImport(&g, 1, "b")
+						autoImport(&g, 0, "a", "b")
+					}
+					withCallback(&g, c.cb, c.form)
+					e.add(g)
+				}
+			}
+		}
+	}
+}
+
 // ---- family "sample": random graphs beyond the enumerated bounds ------------------------------
 
-func famSample(e *emitter, r *fw.Rng, r2 *fw.Rng, r3 *fw.Rng, count int) {
+func famSample(e *emitter, r *fw.Rng, r2 *fw.Rng, r3 *fw.Rng, r4 *fw.Rng, count int) {
 	modes := exitModes()
 	modNames := []string{"main", "a", "b", "c", "d"}
 	for i := 0; i < count; i++ {
@@ -1036,8 +1161,20 @@ func famSample(e *emitter, r *fw.Rng, r2 *fw.Rng, r3 *fw.Rng, count int) {
 			g.Exit, g.Catch = md.exit, md.catch
 			withCallback(&g, md.callback, md.form)
 		}
+		// a fourth stream: variables named like the globals of the module in every frame
+		if r4.Chance(1, 4) {
+			g.Shadow = shadowForms[r4.Intn(len(shadowForms))]
+		}
 		e.add(g)
 	}
+}
+
+// shadowExits lists how calls end in family "shadow": all six ways, or (not all) one per kind of exit.
+func shadowExits(all bool) []exitMode {
+	if all {
+		return []exitMode{{exit: ""}, {exit: "return"}, {exit: "throw"}, {exit: "throw", catch: "entry"}, {exit: "throw-deep"}, {exit: "throw-deep", catch: "entry"}}
+	}
+	return []exitMode{{exit: ""}, {exit: "return"}, {exit: "throw"}, {exit: "throw-deep", catch: "entry"}}
 }
 
 // Bound describes the enumerated (exhaustive) part of a tier in words.
@@ -1047,7 +1184,9 @@ func Bound(tier string) string {
 	e4 := "over 4 modules without self imports (2^12)"
 	singL := "none or {a, b}"
 	ex4 := ""
+	sh := "entry + 1 module, calls ending as {tail value, `return`, `throw(result)` caught at the call site, throw from a private helper caught in the entry's main}, or entry + 2 modules, direct calls only, calls ending as {tail value, throw from a private helper caught in the entry's main}"
 	if tier == "thorough" {
+		sh = "entry + 1 or 2 modules, calls ending in each of the six ways, or (direct calls only, tail values only) entry + 3 modules"
 		singL = "none, {main, a}, {main, b}, {a, b} or all"
 		ex4 = " or (direct calls only) 3 modules"
 		tri = "f and v each in {none, pub fn, fn, pub let, let}"
@@ -1064,6 +1203,7 @@ func Bound(tier string) string {
 		"reexport: `import trigger minute` / `import templ FooFeature` from a user module that imported it from the host or has no such name; importer = entry or non-entry; alone or first in a braced list. " +
 		"leaks: a module uses fn/let/type x (pub or private) of another module without importing it: user = entry, sibling or imported module; with and without a third module importing it legally. " +
 		"exits: entry + 1 or 2 modules" + ex4 + ", every acyclic set of import edges that reaches every module (edge function, private fn f, private global under one shared name or one name per module, a pub fn g in the last module), in every combination of how functions end {tail value, `return`, `throw(result)`, throw from a private helper of the module} x where a thrown result is caught {`try` around every call, only in the entry's main} x function values crossing the boundary {none, every edge function is handed its caller's private k and calls it, the entry's k is handed down the chain, every module's pub maker function returns its private k and the importers call what it returns} x what the function value is {the named function, a function literal `fn() -> str { k() }` written where the value is made} except the plain one; direct calls and calls through function values; plus one diamond whose modules all declare `$K` (extraction parameters or `$K` expressions) in every such combination. " +
+		"shadow: the graphs of exits with " + sh + ", where every function and the entry's main hold a variable named like each global of their module while they call other functions {a local declared first, a parameter, a local of a nested block around the calls after which the globals are read again} x the same function-value combinations including none; plus the `$K` diamond (same ways of ending a call) and three shapes in which the shadowed name is an imported pub global, with and without writes through it. " +
 		"mangle: modules a / a_b (m / m_n) with items b_c / c (n_x1 / x1) of every kind pair (pub/private fn/let) in three import shapes. mut: 14 graphs in which functions write through pub and imported globals"
 }
 
@@ -1108,7 +1248,15 @@ func buildCases(tier string, seed uint64) []fw.Case {
 	if thorough {
 		famExits(e, 4, exitModes(), 1)
 	}
-	famSample(e, fw.NewRng(seed^0xC15), fw.NewRng(seed^0xC15D), fw.NewRng(seed^0xC15E), n)
+	if thorough {
+		famShadow(e, 2, shadowExits(true), 2)
+		famShadow(e, 3, shadowExits(true), 2)
+		famShadow(e, 4, shadowExits(false)[:1], 1)
+	} else {
+		famShadow(e, 2, shadowExits(false), 2)
+		famShadow(e, 3, []exitMode{shadowExits(false)[0], shadowExits(false)[3]}, 1)
+	}
+	famSample(e, fw.NewRng(seed^0xC15), fw.NewRng(seed^0xC15D), fw.NewRng(seed^0xC15E), fw.NewRng(seed^0xC15F), n)
 	e.flushAll()
 	return e.cases
 }
